@@ -335,6 +335,12 @@ func runT7(c *load.Ctx, r *report.RuleResult) {
 		return
 	}
 	literal := map[string]bool{"TypeString": true, "TypeInteger": true, "TypeFloat": true, "TypeBoolean": true, "TypeNull": true}
+	provBad := false
+	defer func() {
+		if !provBad {
+			r.OK("kind|provenance", pos, "every deciding path without an enum rule asks the exact-number classifier for the kind of the document value")
+		}
+	}()
 	for _, o := range outs {
 		val := o.ChoiceMap()
 		v, code := verdictOf(o)
@@ -350,6 +356,21 @@ func runT7(c *load.Ctx, r *report.RuleResult) {
 		}
 		kind, typ := val["kind(value)"], val["node.type"]
 		nullable, nullableAsked := val["has(NullableConstraintType)"]
+		first := val["value[0]"]
+		spelled := first == "34" || first == "116" || first == "102" || first == "110" // " t f n: the first byte settles the kind
+		if _, asked := val["kind(value)"]; !asked && v != "undecided" && v != "crash" && !spelled {
+			// decided without asking the exact-number classifier what kind the document value is: a kind
+			// read off the spelling (a point makes a float) calls 2.5e1 a float
+			key := "kind|provenance"
+			if !provBad {
+				provBad = true
+				r.Bad(key, pos, "the kind check is decided on a path that never asks json.Guess(value).LiteralJsonType() for the kind of the document value: "+o.Valuation()+" => "+o.Exit())
+			}
+			continue
+		}
+		if _, asked := val["kind(value)"]; !asked {
+			continue
+		}
 		if !literal[kind] || typ == "TypeUndefined" || typ == "TypeMixed" || kind == "" || typ == "" {
 			continue // cells the property does not pin down
 		}
